@@ -232,6 +232,27 @@ def gen_action_pattern(rng, cat):
     return p
 
 
+_INV = None
+
+
+def inversion_patterns(cat):
+    """patterns whose literal prefix reaches a place where the catalogue's order and the order of its lower-cased entries DISAGREE
+    (iam:GetSSHPublicKey < iam:GetServerCertificate, but 'getssh' > 'getserver'): an index built on one order and searched with the
+    other goes wrong exactly there"""
+    global _INV
+    if _INV is None:
+        out = []
+        for a, b in zip(cat, cat[1:]):
+            if a.lower() > b.lower():
+                k = 0
+                while k < min(len(a), len(b)) and a[k].lower() == b[k].lower():
+                    k += 1
+                for e in (a, b):
+                    out += [e[:k + 1] + "*", e[:-1] + "?", e[:max(k, 1)] + "*", e]
+        _INV = out
+    return _INV
+
+
 def cases(rng, tier, shard, nshards):
     from pycfmodel.cloudformation_actions import CLOUDFORMATION_ACTIONS as cat
     if shard == 0:
@@ -247,6 +268,9 @@ def cases(rng, tier, shard, nshards):
             yield LIKE, {"op": rng.choice(LIKE_OPS), "p": p, "s": s}
         if k % (n_pairs // n_expand) == 0:
             yield EXPAND, {"p": gen_action_pattern(rng, cat)}
+            inv = inversion_patterns(cat)
+            if inv:
+                yield EXPAND, {"p": rng.choice(inv)}
         if k % 5 == 0:
             # case-differing candidate so that the two readings disagree
             p2 = gen_pattern(rng)
